@@ -40,6 +40,7 @@ BUDGET_S = {'quick': 900, 'thorough': 3300}
 
 TYPES = ['Dimen', 'Length', 'Dimension', 'MuDimen', 'MuLength', 'Glue', 'Skip', 'MuGlue', 'MuSkip', 'Number', 'Int', 'Integer', 'Token', 'Tok', 'XTok', 'XToken', 'Args', 'any', 'cs',
          'url', 'str', 'chr', 'char', 'label', 'id', 'idref', 'ref', 'nox', 'list', 'dict', 'dimen', 'dimension', 'length', 'number', 'count', 'int', 'float', 'double', None, 'nosuchtype']
+MAC_STREAMS = ['\\mempty x', '\\mtwo x', '{\\mtwo}x', '{\\mempty}x', '\\mone x', '\\mtwo', '\\mnest x']      # user macros with empty / one-token / longer replacement texts
 REG_STREAMS = ['\\tolerance ', '-\\tolerance x', '\\parindent ', '2\\parindent ', '\\parskip ', '\\parskip plus 1pt', '\\medmuskip ', '-\\medmuskip ', '\\thickmuskip=\\medmuskip ', '1pt plus\\parindent ']
 
 
@@ -114,6 +115,10 @@ ALPHA = '1a {}[]-pt'
 
 def h_balance(e, typ, spec, L, stream=None):
     doc = TeXDocument()
+    doc.context.newdef('mempty', '', '')
+    doc.context.newdef('mone', '', 'a')
+    doc.context.newdef('mtwo', '', 'ab')
+    doc.context.newdef('mnest', '', '\\mtwo\\mempty 1pt')
     if stream is None:
         cs = []
         for i in range(L):
@@ -261,7 +266,7 @@ def jobs(tier, seed):
                 if L == 3 and spec == '*':
                     continue
                 J.append(dict(harness='h_balance', params=dict(typ=typ, spec=spec, L=L), label='balance %s %s L=%d' % (typ, spec, L), no_twin=True, may_be_vacuous=True))
-        for st in REG_STREAMS:
+        for st in REG_STREAMS + MAC_STREAMS:
             J.append(dict(harness='h_balance', params=dict(typ=typ, spec=None, L=0, stream=st), label='balance %s reg %r' % (typ, st), no_twin=True, may_be_vacuous=True))
     for lo in range(0, len(DOCS), 6):
         J.append(dict(harness='h_monitor', params=dict(lo=lo, hi=min(len(DOCS), lo + 6)), label='monitor docs[%d:%d]' % (lo, min(len(DOCS), lo + 6))))
